@@ -90,7 +90,7 @@ inductive Err
   | invalidNumCommittees | invalidChainId | rejectProposal | nonSubsidizedCommittee
   | invalidQCCommitteeHeight | invalidQCRootChainHeight | invalidDoubleSigner | invalidDoubleSignHeights
   | invalidPercentAllocation | invalidParam | unknownParam | unknownParamSpace | invalidArgument
-  | invalidBlockRange | invalidAddress | invalidSellOrder
+  | invalidBlockRange | invalidAddress | invalidSellOrder | incompatibleVesting | invalidVesting
   deriving DecidableEq, Repr
 
 def Err.code : Err → String
@@ -109,6 +109,7 @@ def Err.code : Err → String
   | .unknownParam => errUnknownParam | .unknownParamSpace => errUnknownParamSpace
   | .invalidArgument => errInvalidArgument | .invalidBlockRange => errInvalidBlockRange
   | .invalidAddress => errInvalidAddress | .invalidSellOrder => errInvalidSellOrder
+  | .incompatibleVesting => errIncompatibleVesting | .invalidVesting => errInvalidVesting
 
 abbrev M := Except Err
 
@@ -183,6 +184,16 @@ structure CommitteeData where
   percents : List (Addr × Nat) := []      -- payment percents (address, percent), in arrival order
   deriving DecidableEq, Repr
 
+/-- the vesting fields of an `Account` record: `VestingAmount`, `VestingStartHeight`, `VestingCliffHeight`,
+`VestingEndHeight`. Kept in a map of their own next to the balances (`Ledger.vesting`); both are written together by
+`setAccount`, the transcription of `SetAccount`. -/
+structure Vest where
+  amount : Nat
+  start : Nat
+  cliff : Nat
+  stop : Nat
+  deriving DecidableEq, Repr
+
 structure Ledger where
   cfg : Config := {}
   params : Params := {}
@@ -200,6 +211,7 @@ structure Ledger where
   retired : List Nat := []
   doubleSigners : KSet (Addr × Nat) := []    -- indexer: (address, height) already slashed for
   slashTracker : NMap (Addr × Nat) := []     -- per block: (address, chain) ↦ percent slashed so far
+  vesting : List (Addr × Vest) := []         -- the vesting tranche of an account record (absent = all four fields 0)
   deriving Repr
 
 /-! ## protocol version gate (`IsFeatureEnabled`) -/
@@ -218,17 +230,75 @@ def accPut (L : Ledger) (a : Addr) (v : Nat) : Ledger := { L with accounts := NM
 def poolGet (L : Ledger) (id : Nat) : Nat := NMap.get L.pools id
 def poolPut (L : Ledger) (id : Nat) (v : Nat) : Ledger := { L with pools := NMap.put L.pools id v }
 
+def vestGet? (L : Ledger) (a : Addr) : Option Vest := AMap.find? L.vesting a
+
+/-- `AccountVestedAmount` at height `h` (the quotient of the 128-bit product: no overflow, `stop − start > 0` whenever
+the last branch is reached) -/
+def vestedAmount (h : Nat) (t : Vest) : Nat :=
+  if h < t.start || h < t.cliff then 0
+  else if h ≥ t.stop then t.amount
+  else t.amount * (h - t.start) / (t.stop - t.start)
+
+/-- `AccountLockedAmount` -/
+def lockedAmount (h : Nat) : Option Vest → Nat
+  | none => 0
+  | some t => if t.amount = 0 then 0 else if vestedAmount h t ≥ t.amount then 0 else t.amount - vestedAmount h t
+
+/-- `AccountSpendableAmount` -/
+def accSpendable (L : Ledger) (a : Addr) : Nat :=
+  if lockedAmount L.height (vestGet? L a) ≥ accGet L a then 0 else accGet L a - lockedAmount L.height (vestGet? L a)
+
+/-- `SetAccount`: a tranche with nothing locked any more is cleared (`clearAccountVestingIfFullyVested`), a record with
+balance 0 is deleted (nonces are outside the model) -/
+def setAccount (L : Ledger) (a : Addr) (amount : Nat) (t : Option Vest) : Ledger :=
+  let t' := if lockedAmount L.height t = 0 then none else t
+  { accPut L a amount with
+    vesting := if amount = 0 then AMap.erase L.vesting a
+               else match t' with
+                 | none => AMap.erase L.vesting a
+                 | some v => AMap.set L.vesting a v }
+
 /-- `AccountAdd`: guarded against overflow -/
 def accountAdd (L : Ledger) (a : Addr) (x : Nat) : M Ledger :=
   if x = 0 then .ok L
   else if accGet L a > MAXU - x then .error .invalidAmount
-  else .ok (accPut L a (accGet L a + x))
+  else .ok (setAccount L a (accGet L a + x) (vestGet? L a))
 
-/-- `AccountSub`: guarded (no vesting: spendable = amount) -/
+/-- `AccountSub`: only the spendable part (balance less the still-locked part of the tranche) may be withdrawn -/
 def accountSub (L : Ledger) (a : Addr) (x : Nat) : M Ledger :=
   if x = 0 then .ok L
-  else if accGet L a < x then .error .insufficientFunds
-  else .ok (accPut L a (accGet L a - x))
+  else if accSpendable L a < x then .error .insufficientFunds
+  else .ok (setAccount L a (accGet L a - x) (vestGet? L a))
+
+/-- `ValidateAccountAddWithVesting`: a still-locked tranche accepts another vesting send only with identical terms -/
+def validateAddWithVesting (L : Ledger) (dst : Addr) (start cliff stop : Nat) : M Unit :=
+  match vestGet? L dst with
+  | none => .ok ()
+  | some t =>
+    if t.amount ≠ 0 && lockedAmount L.height (some t) ≠ 0 then
+      if t.start ≠ start || t.cliff ≠ cliff || t.stop ≠ stop then .error .incompatibleVesting else .ok ()
+    else .ok ()
+
+/-- `acc.VestingAmount` of a record -/
+def vestAmount : Option Vest → Nat
+  | some t => t.amount
+  | none => 0
+
+/-- the tranche after a top-up: `acc.VestingAmount += msg.Amount`, terms kept -/
+def vestTopUp (o : Option Vest) (amount start cliff stop : Nat) : Option Vest :=
+  match o with
+  | some t => some { t with amount := t.amount + amount }
+  | none => some ⟨amount, start, cliff, stop⟩
+
+/-- `AccountAddWithVesting` -/
+def accountAddWithVesting (L : Ledger) (dst : Addr) (amount start cliff stop : Nat) : M Ledger :=
+  if accGet L dst > MAXU - amount || vestAmount (vestGet? L dst) > MAXU - amount then .error .invalidAmount
+  else match validateAddWithVesting L dst start cliff stop with
+    | .error e => .error e
+    | .ok _ =>
+      if vestAmount (vestGet? L dst) = 0 || lockedAmount L.height (vestGet? L dst) = 0 then
+        .ok (setAccount L dst (accGet L dst + amount) (some ⟨amount, start, cliff, stop⟩))
+      else .ok (setAccount L dst (accGet L dst + amount) (vestTopUp (vestGet? L dst) amount start cliff stop))
 
 /-- `PoolAdd`: NOT guarded (`pool.Amount += amountToAdd`) -/
 def poolAdd (L : Ledger) (id x : Nat) : Ledger := poolPut L id ((poolGet L id + x) % U64)
@@ -397,6 +467,13 @@ def setUnstakingIfBelowMinimum (L : Ledger) (a : Addr) (val : Validator) : Bool 
 def handleSend (L : Ledger) (src dst : Addr) (amount : Nat) : M Ledger := do
   let L1 ← accountSub L src amount
   accountAdd L1 dst amount
+
+/-- `HandleMessageSend` with a vesting schedule (`VestingStartHeight ≠ 0 ∨ VestingEndHeight ≠ 0`, which after
+`MessageSend.Check` is the same as "not all three heights are 0") -/
+def handleSendVesting (L : Ledger) (src dst : Addr) (amount start cliff stop : Nat) : M Ledger := do
+  validateAddWithVesting L dst start cliff stop
+  let L1 ← accountSub L src amount
+  accountAddWithVesting L1 dst amount start cliff stop
 
 /-- `HandleMessageStake`; `a` is the address of the message's public key -/
 def handleStake (L : Ledger) (signer a : Addr) (amount : Nat) (cs : List Nat) (delegate compound : Bool) (output : Addr) : M Ledger := do
@@ -924,6 +1001,9 @@ def handleChangeParameter (L : Ledger) (space key : String) (v : Nat) (start sto
 
 inductive Msg
   | send (src dst : Addr) (amount : Nat)
+  /-- a `MessageSend` whose three vesting heights are not all 0 (the same message kind in the code; a constructor of
+  its own here so that the plain send keeps its shape) -/
+  | sendVesting (src dst : Addr) (amount start cliff stop : Nat)
   | stake (a : Addr) (amount : Nat) (cs : List Nat) (delegate compound : Bool) (output : Addr)
   | editStake (a : Addr) (amount : Nat) (cs : List Nat) (compound : Bool) (output : Addr)
   | unstake (a : Addr)
@@ -949,6 +1029,11 @@ def checkCommittees (cs : List Nat) : M Unit :=
 /-- the stateless `Check()` of each message (address sizes are always 20 here) -/
 def Msg.check : Msg → M Unit
   | .send _ _ amount => if amount = 0 then .error .invalidAmount else .ok ()
+  | .sendVesting _ _ amount start cliff stop =>
+    if amount = 0 then .error .invalidAmount
+    else if stop ≤ start then .error .invalidVesting
+    else if cliff < start || cliff > stop then .error .invalidVesting
+    else .ok ()
   | .stake _ amount cs _ _ _ => do checkCommittees cs; if amount = 0 then throw .invalidAmount
   | .editStake _ amount cs _ _ => do checkCommittees cs; if amount = 0 then throw .invalidAmount
   | .unstake _ | .pause _ | .unpause _ => .ok ()
@@ -963,7 +1048,7 @@ def Msg.check : Msg → M Unit
 
 /-- `GetFeeForMessageName` -/
 def Msg.stateFee (p : Params) : Msg → Nat
-  | .send .. => p.sendFee | .stake .. => p.stakeFee | .editStake .. => p.editStakeFee
+  | .send .. => p.sendFee | .sendVesting .. => p.sendFee | .stake .. => p.stakeFee | .editStake .. => p.editStakeFee
   | .unstake _ => p.unstakeFee | .pause _ => p.pauseFee | .unpause _ => p.unpauseFee
   | .daoTransfer .. => p.daoTransferFee | .subsidy .. => p.subsidyFee
   | .changeParameter .. => p.changeParameterFee
@@ -975,6 +1060,7 @@ def signersForValidator (L : Ledger) (a : Addr) : M (List Addr) := do
 /-- `GetAuthorizedSignersFor` -/
 def authorizedSigners (L : Ledger) : Msg → M (List Addr)
   | .send src _ _ => .ok [src]
+  | .sendVesting src .. => .ok [src]
   | .stake a _ _ _ _ output => .ok [a, output]
   | .editStake a .. => signersForValidator L a
   | .unstake a | .pause a | .unpause a => signersForValidator L a
@@ -985,6 +1071,7 @@ def authorizedSigners (L : Ledger) : Msg → M (List Addr)
 /-- `HandleMessage` (with the `Signer` field populated from the transaction's signer) -/
 def handleMessage (L : Ledger) (sender : Addr) : Msg → M Ledger
   | .send src dst amount => handleSend L src dst amount
+  | .sendVesting src dst amount start cliff stop => handleSendVesting L src dst amount start cliff stop
   | .stake a amount cs delegate compound output => handleStake L sender a amount cs delegate compound output
   | .editStake a amount cs compound output => handleEditStake L sender a amount cs compound output
   | .unstake a => handleUnstake L a
@@ -1000,12 +1087,13 @@ def faucetTopUp (L : Ledger) (sender : Addr) (required : Nat) : M Ledger :=
   | none => .ok L
   | some f =>
     if sender ≠ f then .ok L
-    else if accGet L sender ≥ required then .ok L
-    else mintToAccount L sender (required - accGet L sender)
+    else if accSpendable L sender ≥ required then .ok L
+    else mintToAccount L sender (required - accSpendable L sender)
 
 /-- the faucet step of `ApplyTransaction` (send transactions only) -/
 def txFaucet (L : Ledger) (sender : Addr) (fee : Nat) : Msg → M Ledger
   | .send _ _ amount => if amount > MAXU - fee then .error .invalidAmount else faucetTopUp L sender (amount + fee)
+  | .sendVesting _ _ amount _ _ _ => if amount > MAXU - fee then .error .invalidAmount else faucetTopUp L sender (amount + fee)
   | _ => .ok L
 
 /-- `ApplyTransaction` (`CheckTx` + fee + handler) for a correctly signed transaction from `sender` -/
